@@ -318,21 +318,22 @@ func (c *Checker) finish(verifDir string, meta runMeta, seed int, start time.Tim
 		}
 	}
 	cov := map[string]any{
-		"explanation":         meta.explanation,
-		"obligations":         len(c.Obls),
-		"discharged":          discharged,
-		"evaluations":         len(c.Obls),
-		"distinct_nontrivial": len(distinct),
-		"rule":                "one obligation per (rule, construct) instance found in the current tree; distinct = distinct (rule, construct) keys",
-		"samples":             samples,
-		"rules":               rules,
-		"packages_loaded":     c.w.NumPackages,
-		"target_packages":     []string{gbnPath, mboxPath},
-		"functions_analysed":  nf,
-		"ssa_instructions":    ninstr,
-		"known_findings":      knownHit,
-		"notes":               c.Notes,
-		"checker_cmd":         "./run.sh " + c.Prop + " " + c.Tier,
+		"explanation":          meta.explanation,
+		"obligations":          len(c.Obls),
+		"discharged":           discharged,
+		"evaluations":          len(c.Obls),
+		"distinct_nontrivial":  len(distinct),
+		"rule":                 "one obligation per (rule, construct) instance found in the current tree; distinct = distinct (rule, construct) keys",
+		"samples":              samples,
+		"rules":                rules,
+		"packages_loaded":      c.w.NumPackages,
+		"helper_normalisation": c.w.Normalised,
+		"target_packages":      []string{gbnPath, mboxPath},
+		"functions_analysed":   nf,
+		"ssa_instructions":     ninstr,
+		"known_findings":       knownHit,
+		"notes":                c.Notes,
+		"checker_cmd":          "./run.sh " + c.Prop + " " + c.Tier,
 		"trusted_base": []string{"go/types + go/ssa (x/tools v0.29.0) model the compiled program",
 			"the per-rule idiom tables listed in DESIGN.md"},
 		"exhaustive": false,
